@@ -200,15 +200,25 @@ impl BuildSystem {
 
         // Check cache to see if regeneration is needed (unless force is set)
         let discovered_structs = analyzer.get_discovered_structs();
+        // The dependency visualisation prints locations and counts the cache hashes do not cover
+        let visualization: Vec<String> = if config.should_visualize_deps() {
+            vec![
+                analyzer.visualize_dependencies(&commands),
+                analyzer.generate_dot_graph(&commands),
+            ]
+        } else {
+            Vec::new()
+        };
         if config.should_force() {
             self.logger.verbose("Force flag set, regenerating bindings");
         } else {
-            match GenerationCache::needs_regeneration_with_events(
+            match GenerationCache::needs_regeneration_with_visualization(
                 &config.output_path,
                 &commands,
                 discovered_structs,
                 analyzer.get_discovered_events(),
                 config,
+                &visualization,
             ) {
                 Ok(false) => {
                     self.logger
@@ -265,6 +275,7 @@ impl BuildSystem {
             analyzer.get_discovered_events(),
             config,
         )?
+        .with_visualization(&visualization)
         .with_generated_files(&vouched_files);
         if let Err(e) = cache.save(&config.output_path) {
             self.logger
